@@ -17,7 +17,8 @@ static IntPolynomial *g_dec; static int s_dec, s_clear, n_mul, s_firstmul, n_del
 IntPolynomial *new_IntPolynomial_array(int32_t nbelts, const int32_t N) { if (nbelts != KPL) bad++; g_dec = verif_alloc((size_t)KPL * sizeof(IntPolynomial)); live++; return g_dec; }
 void delete_IntPolynomial_array(int32_t nbelts, IntPolynomial *obj) { if (obj != g_dec || nbelts != KPL) bad++; n_del++; live--; free(obj); }
 static TLweSample *x_acc; static const TGswSample *x_gsw; static const TGswParams *x_par; static const TLweParams *x_tp;
-void tGswTLweDecompH(IntPolynomial *result, const TLweSample *sample, const TGswParams *params) { if (result != g_dec || sample != x_acc || params != x_par) bad++; s_dec = ++seq; }
+static const TLweSample *x_src;      /* what is decomposed: the accumulator itself (MulTo) or the separate operand b (tGswExternProduct) */
+void tGswTLweDecompH(IntPolynomial *result, const TLweSample *sample, const TGswParams *params) { if (result != g_dec || sample != x_src || params != x_par) bad++; s_dec = ++seq; }
 void tLweClear(TLweSample *result, const TLweParams *params) { if (result != x_acc || params != x_tp) bad++; s_clear = ++seq; }
 void tLweAddMulRTo(TLweSample *result, const IntPolynomial *p, const TLweSample *sample, const TLweParams *params) {
     ++seq; if (n_mul == 0) s_firstmul = seq;
@@ -30,8 +31,15 @@ void h_tGswExternMulToTLwe(void) {
     int32_t N; __CPROVER_assume(N >= 1 && N <= VERIF_NMAX); *(int32_t *)&tp.N = N;
     TLweSample acc; TGswSample gsw; TLweSample rows[KPL]; gsw.all_sample = rows;
     x_acc = &acc; x_gsw = &gsw; x_par = &gp; x_tp = &tp; seq = bad = live = 0; s_dec = s_clear = n_mul = s_firstmul = n_del = 0;
+#ifdef EXT_PRODUCT
+    TLweSample opb; x_src = &opb;
+    tGswExternProduct(&acc, &gsw, &opb, &gp);
+    __CPROVER_assert(s_dec > 0 && s_clear > 0 && s_clear < s_firstmul, "the operand b is decomposed, the result is cleared before the products are accumulated into it");
+#else
+    x_src = &acc;
     tGswExternMulToTLwe(&acc, &gsw, &gp);
     __CPROVER_assert(s_dec == 1 && s_clear == 2 && s_firstmul == 3, "the accumulator is decomposed BEFORE it is cleared, then the products are accumulated");
+#endif
     __CPROVER_assert(n_mul == KPL && bad == 0, "exactly one multiply-accumulate per row i < (k+1)l, with digit polynomial i and row i, into the accumulator");
     __CPROVER_assert(n_del == 1 && live == 0, "decomposition buffer released");
     VERIF_REACH();
@@ -114,6 +122,9 @@ void h_tGswAddMuH(void) {
     TLweParams tp; TGswParams gp; *(const TLweParams **)&gp.tlwe_params = &tp; *(int32_t *)&gp.kpl = KPL; *(int32_t *)&gp.l = VERIF_L; *(int32_t *)&tp.k = VERIF_K;
     int32_t N; __CPROVER_assume(N >= 1 && N <= VERIF_NMAX); *(int32_t *)&tp.N = N;
     Torus32 h[VERIF_L]; gp.h = h;
+#ifdef VERIF_BGBIT
+    for (int i = 0; i < VERIF_L; i++) h[i] = (Torus32)(1u << (32 - (i + 1) * VERIF_BGBIT));     /* the gadget weights the TGswParams constructor computes (C12 proves that) */
+#endif
     for (int r = 0; r < KPL; r++) { rows[r].a = polys[r]; rows[r].b = polys[r] + VERIF_K; for (int q = 0; q <= VERIF_K; q++) polys[r][q].coefsT = verif_alloc((size_t)N * sizeof(Torus32)); }
     for (int b = 0; b <= VERIF_K; b++) blocs[b] = rows + b * VERIF_L;
     G.all_sample = rows; G.bloc_sample = blocs;
@@ -126,6 +137,21 @@ void h_tGswAddMuH(void) {
     __CPROVER_assert(U32(polys[gr][gq].coefsT[gj]) == g_w0 + ((gq == gr / VERIF_L) ? g_prod : 0u),
                      "row (bloc,i): message[j]*h[i] is added to coefficient j of polynomial bloc (block diagonal), once, and nothing else changes");
     __CPROVER_assert(h[g_i] == h_old && msg.coefs[gj] == m_old, "gadget weights and message untouched");
+    VERIF_REACH();
+}
+#endif
+
+#ifdef H_TRIVIAL
+/* tGswNoiselessTrivial = clear, then += message*H */
+static int n_c, n_a, ord_bad; static const void *c_r, *c_p, *a_r, *a_m, *a_p;
+void tGswClear(TGswSample *result, const TGswParams *params) { if (n_a) ord_bad = 1; n_c++; c_r = result; c_p = params; }
+void tGswAddMuH(TGswSample *result, const IntPolynomial *message, const TGswParams *params) { if (n_c != 1) ord_bad = 1; n_a++; a_r = result; a_m = message; a_p = params; }
+#include "extracted.inc"
+void h_tGswNoiselessTrivial(void) {
+    static TGswSample r; static IntPolynomial m; static TGswParams gp; n_c = n_a = ord_bad = 0;
+    tGswNoiselessTrivial(&r, &m, &gp);
+    __CPROVER_assert(n_c == 1 && n_a == 1 && !ord_bad && c_r == (const void *)&r && c_p == (const void *)&gp && a_r == (const void *)&r && a_m == (const void *)&m && a_p == (const void *)&gp,
+                     "noiseless trivial TGSW sample: the result is cleared once, then message*H is added once, in this order");
     VERIF_REACH();
 }
 #endif
